@@ -1,5 +1,13 @@
+#[cfg(feature = "verif_hooks")]
+use crate::verif_hooks::sync::OnceCell;
+#[cfg(not(feature = "verif_hooks"))]
 use once_cell::sync::OnceCell;
 use std::collections::HashMap;
+#[cfg(feature = "verif_hooks")]
+use crate::verif_hooks::sync::Mutex;
+#[cfg(feature = "verif_hooks")]
+use std::sync::Arc;
+#[cfg(not(feature = "verif_hooks"))]
 use std::sync::{Arc, Mutex};
 
 #[derive(Hash, Eq, PartialEq)]
